@@ -73,7 +73,12 @@ def block(stmts, var, is_async):
             out.append(f"(TIf {cond(s.test, var)} [{'; '.join(block(s.body, var, is_async))}])")
         elif isinstance(s, ast.Raise):
             out.append("TRaiseError")
-        elif text == "ctx = decision.context" or text in ("sleep_impl = sleeper or time.sleep", "sleep_impl = sleeper or asyncio.sleep"):
+        elif text in ("sleep_impl = sleeper or time.sleep", "sleep_impl = sleeper or asyncio.sleep"):
+            # Runner.sleeper_who: the given sleeper unless None was given.  `or` would also discard a sleeper whose truth value is
+            # False (a recording list subclass that is still empty): finding 7.16
+            raise TranslationError(f"default sleeper chosen by truth value: {text}")
+        elif text == "ctx = decision.context" or text in ("sleep_impl = time.sleep if sleeper is None else sleeper",
+                                                          "sleep_impl = asyncio.sleep if sleeper is None else sleeper"):
             if is_async != ("asyncio" in text) and "sleep_impl" in text:
                 raise TranslationError(f"default sleeper: {text}")
         elif text == "_call_before_sleep(before_sleep, ctx, decision.sleep_s)":
